@@ -334,3 +334,41 @@ brk_on("R6-5", "on-R6-5-raw-emit-helper-called-from-write-bits", ["C16"],
 brk_on("R7-2", "on-R7-2-tile-grid-loses-zero-default", ["C17"],
     [("jpeg2000/encoder.go", "	if g.tileWidth == 0 {\n		g.tileWidth = p.Width\n	}\n", "")],
     "DIV", "newTileGrid")
+
+# ---------------------------------------------------------------- independently seeded changes (sub-agents), as reported by the matrix
+# every (seed, check) pair that reports today must keep reporting: patch = seeded/<id>/patch.diff
+def seed(sid, prop, rule):
+    CATALOGUE.append(dict(name='seed-'+sid+'-'+prop, kind='break', props=[prop], edits=[], rule=rule, where='', patch='seeded/'+sid+'/patch.diff'))
+seed("C05-2", "C10", "DETERMINISM")
+seed("C05-2", "C18", "NO-HIDDEN-CONCURRENCY")
+seed("C06-2", "C10", "CARRY")
+seed("C06-2", "C16", "ORDER-FRAMING")
+seed("C08-4", "C08", "SLICE-UNRELATED")
+seed("C08-5", "C08", "IDX")
+seed("C09-2", "C09", "PROGRESS")
+seed("C10-2", "C18", "NO-RECEIVER-WRITE")
+seed("C10-4", "C08", "ASSERT")
+seed("C10-4", "C10", "DETERMINISM")
+seed("C10-4", "C17", "ASSERT")
+seed("C10-4", "C18", "NO-HIDDEN-CONCURRENCY")
+seed("C10-5", "C10", "INPUT-RO")
+seed("C16-3", "C10", "DETERMINISM")
+seed("C16-3", "C16", "ORDER-FRAMING")
+seed("C16-3", "C17", "ASSERT")
+seed("C16-3", "C18", "NO-HIDDEN-CONCURRENCY")
+seed("C16-4", "C10", "CARRY")
+seed("C17-1", "C17", "NARROW")
+seed("C17-2", "C17", "DIV")
+seed("C17-4", "C17", "DIV")
+seed("C18-1", "C10", "DETERMINISM")
+seed("C18-1", "C17", "ASSERT")
+seed("C18-1", "C18", "NO-HIDDEN-CONCURRENCY")
+seed("C18-2", "C18", "PARAMS-RO")
+seed("C18-3", "C10", "DETERMINISM")
+seed("C18-3", "C18", "NO-HIDDEN-CONCURRENCY")
+seed("C18-4", "C10", "NO-GLOBAL-STATE")
+seed("C18-4", "C18", "NO-GLOBAL-WRITE")
+seed("C18-5", "C18", "NO-RECEIVER-WRITE")
+seed("C18-6", "C10", "DETERMINISM")
+seed("C18-6", "C18", "NO-GLOBAL-WRITE")
+seed("C19-2", "C10", "CARRY")
